@@ -652,6 +652,17 @@ example : (trace (lzmaEnd exStrm) [exCall 0 1 1 0, exCall 3 1 1 0]).map (·.resu
     running the compiled function on a stub coder — equals the model's table (2716 cells, kernel evaluation). -/
 theorem control_table_bridge : Gen.C11.table = modelTable := by decide +kernel
 
+/-- size_t-wide pending input. In the model the saved copy of `avail_in` is an unbounded `Nat`, so `action_locked`
+    distinguishes amounts that differ by 2^32 (examples below). Tie to the code: the saved member of the REAL
+    `lzma_internal` is as wide as `size_t`, and the real `lzma_code()`, run with avail_in = 2^32 + 5 during every
+    flush/finish action and then 5, 2^32 + 5, 2^32 + 4, accepts/rejects exactly as the model does. -/
+theorem saved_avail_in_full_width_bridge :
+    Gen.C11.savedAvailInBytes = Gen.C11.sizeTBytes ∧ Gen.C11.wideTable = modelWideTable := by decide
+
+example : (lzmaCode (const 0 1 0) { exIn .finish false (2 ^ 32 + 5) with availIn := 5 } LZMA_FINISH).ret = LZMA_PROG_ERROR
+    ∧ (lzmaCode (const 0 1 0) { exIn .finish false (2 ^ 32 + 5) with availIn := 2 ^ 32 + 5 } LZMA_FINISH).called.isSome = true
+    ∧ (lzmaCode (const (2 ^ 32 + 7) 0 0) { exStrm with availIn := 2 ^ 32 + 9 } LZMA_RUN).strm.totalIn = 2 ^ 32 + 7 := by decide
+
 /-- Each sanity check and each of the nine reserved-member checks of the REAL `lzma_code()`, taken on its own on an
     otherwise healthy handle (20 cases), answers as the model does. -/
 theorem gate_table_bridge : Gen.C11.gateTable = modelGateTable := by decide
